@@ -13,11 +13,11 @@ import json, os, subprocess, time
 from vlib import (BUILD, SPEC, VERIF, ToolError, build_harness, cache_get, cache_put, deviations_for,
                   parse_coverage, replay_parallel, run_tlc, tla_set, tree_hash, write_cfg, known_findings)
 
-RING_DEVIATIONS = ['WakeParkedOnlyAfterEnter']
+RING_DEVIATIONS = ['WakeParkedOnlyAfterEnter', 'LeakFdOfAbandonedOp', 'LoseBufOfAbandonedOp']
 
 RING_INVARIANTS = ['TypeOK', 'MemSafe', 'RoutedOK', 'DeliveredOK', 'DeliveredFinal', 'MultiPrefix',
                    'NeverSurfaces', 'NoLostWake', 'NoParkedBlock', 'FreedIsFinal', 'CancelOnlyDropped',
-                   'NoLeakAtQuiescence']
+                   'NoLeakAtQuiescence', 'NoResLeak', 'BufPartition', 'AllBuffersBack', 'CloseOnce']
 
 # name -> constants of MC_Ring and the matching replay parameters.
 RING_CONFIGS = {
@@ -29,6 +29,14 @@ RING_CONFIGS = {
                kinds='2=multi'),
     'q1': dict(ops='{1, 2}', kind='K_sm', sqn=1, cqn=2, wakers='{1}', maxpost=1, maxrestart=0, maxblocked=2,
                kinds='1=single,2=multi'),
+    # descriptors: a single-shot accept and a multishot accept whose results are AsyncFds
+    'fd': dict(ops='{1, 2}', kind='K_fd', sqn=2, cqn=2, wakers='{1}', maxpost=1, maxrestart=0, maxblocked=1,
+               kinds='1=fdsingle,2=multi', trackres='TRUE', extra=['--track-res', '1'],
+               variants=[('file', 0, 0, None, ['--direct', '0']), ('direct', 0, 0, None, ['--direct', '1'])]),
+    # read buffer pool with two buffers: a single-shot and a multishot pool read
+    'pool': dict(ops='{1, 2}', kind='K_pool', sqn=2, cqn=2, wakers='{1}', maxpost=1, maxrestart=0, maxblocked=1,
+                 kinds='1=poolsingle,2=poolmulti', bufs='{0, 1}', extra=['--nbufs', '2'],
+                 variants=[('base', 0, 0, None, [])]),
     'smt': dict(ops='{1, 2, 3}', kind='K_smt', sqn=2, cqn=4, wakers='{1}', maxpost=1, maxrestart=0, maxblocked=1,
                 kinds='1=single,2=multi,3=twostep'),
 }
@@ -45,7 +53,9 @@ CONSTANTS
     MaxPost = %(maxpost)d
     MaxRestart = %(maxrestart)d
     MaxBlocked = %(maxblocked)d
-""" % c
+    Bufs = %(bufs)s
+    TrackRes = %(trackres)s
+""" % dict(dict(bufs='{}', trackres='FALSE'), **c)
     consts += '    Dev = %s\nCONSTRAINT Bounded\nCHECK_DEADLOCK FALSE\n' % tla_set(dev)
     if mode == 'check':
         consts += 'VIEW view\nINVARIANTS\n' + ''.join('    %s\n' % i for i in RING_INVARIANTS)
@@ -66,7 +76,7 @@ def engine_ring(tier, seed):
     bindir = build_harness()
     binary = os.path.join(bindir, 'replay_ring')
     dev = deviations_for(RING_DEVIATIONS)
-    configs = ['sm', 'st', 'm3', 'q1'] if tier == 'quick' else ['sm', 'st', 'm3', 'q1', 'smt']
+    configs = ['sm', 'st', 'm3', 'q1', 'fd', 'pool'] if tier == 'quick' else ['sm', 'st', 'm3', 'q1', 'fd', 'pool', 'smt']
     for name in configs:
         c = RING_CONFIGS[name]
         # 1. The contract (no deviation enabled) satisfies every invariant.
@@ -94,22 +104,28 @@ def engine_ring(tier, seed):
             res['errors'].append('edges2paths %s: %s' % (name, p.stdout[-500:]))
             continue
         meta = json.loads(p.stdout.strip().splitlines()[-1])
-        variants = [('base', 0, 0, None)]
-        variants += [('sqwrap', 0xFFFFFFFE, 0, 'C04'), ('cqwrap', 0, 0xFFFFFFFF, 'C05')]
-        if tier == 'thorough':
-            variants += [('sqhalf', 0x7FFFFFFF, 0x7FFFFFFE, None)]
+        if 'variants' in c:
+            variants = list(c['variants'])
+        else:
+            variants = [('base', 0, 0, None, [])]
+            variants += [('sqwrap', 0xFFFFFFFE, 0, 'C04', []), ('cqwrap', 0, 0xFFFFFFFF, 'C05', [])]
+            if tier == 'thorough':
+                variants += [('sqhalf', 0x7FFFFFFF, 0x7FFFFFFE, None, [])]
         base_bad = set()
         acts = json.load(open(os.path.join(rdir, 'acts.json')))
         paths = None
-        for vname, sqi, cqi, override in variants:
+        for vi, (vname, sqi, cqi, override, vextra) in enumerate(variants):
             npaths = meta['paths']
-            if vname != 'base' and tier == 'quick':
+            if vi != 0 and 'variants' not in c and tier == 'quick':
                 npaths = min(npaths, 4000)   # the wrap variants replay a prefix of the path set in quick mode
             args = ['--dir', rdir, '--kinds', c['kinds'], '--sqn', str(c['sqn']), '--cqn', str(c['cqn']),
-                    '--sq-init', str(sqi), '--cq-init', str(cqi)]
+                    '--sq-init', str(sqi), '--cq-init', str(cqi)] + c.get('extra', []) + vextra
             recs, sums, crashes = replay_parallel(binary, args, npaths, os.path.join(rdir, 'out_' + vname))
             steps = sum(s['steps'] for s in sums)
-            conf = {'kinds': c['kinds'], 'sqn': c['sqn'], 'cqn': c['cqn'], 'sq_init': sqi, 'cq_init': cqi}
+            conf = {'kinds': c['kinds'], 'sqn': c['sqn'], 'cqn': c['cqn'], 'sq_init': sqi, 'cq_init': cqi,
+                    'track_res': 1 if c.get('trackres') == 'TRUE' else 0,
+                    'direct': 1 if vextra == ['--direct', '1'] else 0,
+                    'nbufs': int(c['extra'][1]) if c.get('extra', [''])[0] == '--nbufs' else 0}
             first = {}
             for rec in recs:
                 first.setdefault(rec['path'], rec)          # earliest record of a path
@@ -136,9 +152,9 @@ def engine_ring(tier, seed):
                     rec['path_len'] = len(rec['path_acts'])
             ndiv = 0
             for pidx, rec in sorted(first.items()):
-                if vname == 'base':
+                if vi == 0:
                     base_bad.add(pidx)
-                elif pidx in base_bad:
+                elif pidx in base_bad and 'variants' not in c:
                     continue                                   # consequence of a divergence already reported
                 rec = dict(rec, config=conf, variant=vname, model='Ring/' + name)
                 if override:
